@@ -114,6 +114,7 @@ fn inj_name(i: &Inject) -> String {
         Inject::ConstsNonEmpty { from, .. } => format!("consts-nonempty(from={})", if *from == usize::MAX { "usize::MAX".to_string() } else { from.to_string() }),
         Inject::Validate { .. } => "validate".into(),
         Inject::ValidateAlt { .. } => "validate-alt".into(),
+        Inject::ValidateDropped { .. } => "validate-dropped".into(),
         Inject::MpcMsgBurst { count, from, party, .. } => if from == party { format!("{count} mpc_msgs naming the receiver itself as sender") } else { format!("{count} mpc_msgs from unknown sender {from}") },
         Inject::MpcMsg { from, .. } => format!("mpc_msg(from={})", if *from == usize::MAX { "usize::MAX".to_string() } else { from.to_string() }),
         Inject::Cancel { .. } => "cancel".into(),
@@ -466,6 +467,28 @@ pub fn cases_c16(tier: &str, seed: u64) -> Vec<Case> {
                         sc.alt_policies = vec![other];
                         sc.injections = vec![(if k % 2 == 0 { When::Step(k) } else { When::After(k) }, Inject::ValidateAlt { comp: 0, party: f, alt: 0 })];
                         v.push(Case { prop: "C16", key: format!("{} L{} foreign-validate({what}) at p{} point{}", prog.name, leader, f, k), sc, progs: vec![(*prog).clone()], inputs: vec![inputs.clone()], out_masks: vec![mask.clone()], leaders: vec![leader], mismatch: Some((f, "foreign-validate")), mt: None });
+                    }
+                }
+            }
+            // a follower that is not scheduled yet receives its leader's validate, whose caller gives up; then a
+            // validate for another program / leader; then its own schedule: the second request is never answered Ok
+            for f in (0..n).filter(|f| *f != leader) {
+                let inputs: Vec<u64> = (0..n as u64).map(|p| (seed + 3 * p) % 256).collect();
+                let mask = vec![true; n];
+                for what in ["program", "leader"] {
+                    for first_dropped in [true, false] {
+                        let mut sc = base_scenario(prog, leader, &mask, &inputs, Strategy::Script(vec![]), 0x16400 + pi as u128);
+                        sc.skip_schedule = (0..n).filter(|p| *p != f).map(|p| (0, p)).collect();
+                        let mut other = sc.policies[0][leader].clone();
+                        if what == "program" {
+                            other.program = other.program.replace('^', "&").replace("a > b", "b > a");
+                        } else {
+                            other.leader = (0..n).find(|l| *l != leader).unwrap_or(0);
+                        }
+                        sc.alt_policies = vec![other];
+                        let first = if first_dropped { Inject::ValidateDropped { comp: 0, party: f } } else { Inject::Validate { comp: 0, party: f } };
+                        sc.injections = vec![(When::Step(0), first), (When::Step(0), Inject::ValidateAlt { comp: 0, party: f, alt: 0 })];
+                        v.push(Case { prop: "C16", key: format!("{} L{} parked-validate({}) then foreign-validate({what}) then schedule at p{}", prog.name, leader, if first_dropped { "caller gone" } else { "pending" }, f), sc, progs: vec![(*prog).clone()], inputs: vec![inputs.clone()], out_masks: vec![mask.clone()], leaders: vec![leader], mismatch: Some((f, "foreign-validate")), mt: None });
                     }
                 }
             }
